@@ -510,3 +510,80 @@ Proof.
   intros H. injection H as <-. destruct (pk_protein_q_spec es) as [Hl Hq].
   rewrite map_fst_combine by (symmetry; exact Hl). split; [reflexivity|exact Hq].
 Qed.
+
+(* ====================== group names ====================== *)
+Definition pk_no_comma (m : str) : bool := forallb (fun c => negb (c =? 44)) m.
+
+(* ", ".join(members) *)
+Fixpoint pk_join_names (ms : list str) : str :=
+  match ms with
+  | [] => []
+  | [m] => m
+  | m :: r => m ++ 44 :: 32 :: pk_join_names r
+  end.
+
+Lemma pk_first_member_app m rest : pk_no_comma m = true -> pk_first_member (m ++ 44 :: rest) = m.
+Proof.
+  induction m as [|c m IH]; intros H; [reflexivity|].
+  cbn [pk_no_comma forallb] in H. apply andb_prop in H. destruct H as [Hc Hm].
+  cbn [app pk_first_member]. destruct (c =? 44); [discriminate|]. rewrite IH by exact Hm. reflexivity.
+Qed.
+
+Lemma pk_first_member_single m : pk_no_comma m = true -> pk_first_member m = m.
+Proof.
+  induction m as [|c m IH]; intros H; [reflexivity|].
+  cbn [pk_no_comma forallb] in H. apply andb_prop in H. destruct H as [Hc Hm].
+  cbn [pk_first_member]. destruct (c =? 44); [discriminate|]. rewrite IH by exact Hm. reflexivity.
+Qed.
+
+Lemma pk_first_member_join m ms : pk_no_comma m = true -> pk_first_member (pk_join_names (m :: ms)) = m.
+Proof.
+  intros H. destruct ms as [|m2 ms]; [apply pk_first_member_single; exact H|].
+  cbn [pk_join_names]. apply pk_first_member_app. exact H.
+Qed.
+
+(* a target group led by t and the decoy group led by protein_map[t] have the same pairing key *)
+Theorem pk_pair_key_paired P t d ts ds :
+  pk_no_comma t = true -> pk_no_comma d = true ->
+  pk_get t (pk_protmap P) = Some d -> pk_get d (pk_protmap P) = None ->
+  pk_pair_key P (pk_join_names (t :: ts)) = d /\ pk_pair_key P (pk_join_names (d :: ds)) = d.
+Proof.
+  intros Ht Hd Et Ed. unfold pk_pair_key. rewrite !pk_first_member_join by assumption.
+  rewrite Et, Ed. split; reflexivity.
+Qed.
+
+(* the decoy group made for a target-only FASTA: every member gets the prefix *)
+Lemma pk_prefix_tail_member pre m rest :
+  pk_no_comma m = true ->
+  pk_prefix_tail pre (m ++ 44 :: 32 :: rest) = m ++ 44 :: 32 :: pre ++ pk_prefix_tail pre rest.
+Proof.
+  induction m as [|c m IH]; intros H; [reflexivity|].
+  cbn [pk_no_comma forallb] in H. apply andb_prop in H. destruct H as [Hc Hm].
+  assert (c =? 44 = false) as Ec by (destruct (c =? 44); [discriminate|reflexivity]).
+  destruct m as [|c2 m2].
+  - cbn [app pk_prefix_tail]. rewrite Ec. cbn [andb]. change (44 =? 44) with true. change (32 =? 32) with true.
+    cbn [andb]. reflexivity.
+  - specialize (IH Hm). cbn [app] in *. cbn [pk_prefix_tail]. rewrite Ec. cbn [andb].
+    cbn [pk_prefix_tail] in IH. rewrite IH. reflexivity.
+Qed.
+
+Lemma pk_prefix_tail_single pre m : pk_no_comma m = true -> pk_prefix_tail pre m = m.
+Proof.
+  induction m as [|c m IH]; intros H; [reflexivity|].
+  cbn [pk_no_comma forallb] in H. apply andb_prop in H. destruct H as [Hc Hm].
+  assert (c =? 44 = false) as Ec by (destruct (c =? 44); [discriminate|reflexivity]).
+  destruct m as [|c2 m2]; [reflexivity|]. specialize (IH Hm).
+  cbn [pk_prefix_tail]. rewrite Ec. cbn [andb]. cbn [pk_prefix_tail] in IH. rewrite IH. reflexivity.
+Qed.
+
+Theorem pk_prefix_members_join pre ms :
+  ms <> [] -> Forall (fun m => pk_no_comma m = true) ms ->
+  pk_prefix_members pre (pk_join_names ms) = pk_join_names (map (fun m => pre ++ m) ms).
+Proof.
+  unfold pk_prefix_members. induction ms as [|m ms IH]; intros Hne H; [contradiction|].
+  apply Forall_cons_iff in H. destruct H as [Hm Hms].
+  destruct ms as [|m2 ms].
+  - cbn [pk_join_names map]. rewrite pk_prefix_tail_single by exact Hm. reflexivity.
+  - cbn [pk_join_names map] in *. rewrite pk_prefix_tail_member by exact Hm.
+    rewrite <- app_assoc. cbn [app]. f_equal. f_equal. f_equal. f_equal. apply IH; [discriminate|exact Hms].
+Qed.
